@@ -694,10 +694,19 @@ class Interp(object):
                 self.side_obligation("index_in_range", z3.And(idx >= -n, idx < n))
                 if n == 0:
                     raise PathEnd()
-                res = items[n - 1]
-                for k in range(n - 2, -1, -1):
-                    res = ops.ite(z3.Or(idx == k, idx == k - n), items[k], res)
-                return res
+                try:
+                    res = items[n - 1]
+                    for k in range(n - 2, -1, -1):
+                        res = ops.ite(z3.Or(idx == k, idx == k - n), items[k], res)
+                    return res
+                except OutOfSubset:
+                    if self.spec_mode:
+                        raise
+                    # elements that cannot be merged into one term: branch on the index value
+                    for k in range(n - 1):
+                        if self.path.choose(z3.Or(idx == k, idx == k - n)):
+                            return items[k]
+                    return items[n - 1]
             raise OutOfSubset("index %r into python sequence" % (idx,))
         if isinstance(base, PyDict):
             if isinstance(idx, NTuple) and not idx.is_concrete():
